@@ -32,6 +32,7 @@ fn fingerprint() {
     let mut s = 0xD1FF_2026u64;
     let mut h: u64 = 0xcbf29ce484222325;
     let mut ok = 0usize;
+    let mut out = std::env::var("DIFF_OUT").ok().map(|p| std::io::BufWriter::new(std::fs::File::create(p).unwrap()));
     for _ in 0..n {
         let mut v = Vec::new();
         let runs = 1 + sm(&mut s) % 6;
@@ -68,6 +69,15 @@ fn fingerprint() {
             h ^= b as u64;
             h = h.wrapping_mul(0x100000001b3);
         };
+        if let Some(f) = out.as_mut() {
+            // one line per input (DIFF_OUT=<file>): symbol, stream length, printable form of the input
+            use std::io::Write;
+            match &r {
+                Ok(Ok((cw, size))) => writeln!(f, "{:?} {} modes={:?} {:?}", size, cw.len(), fl, String::from_utf8_lossy(&v.iter().map(|b| if *b < 32 || *b > 126 { b'?' } else { *b }).collect::<Vec<u8>>())).unwrap(),
+                Ok(Err(e)) => writeln!(f, "ERR {:?}", e).unwrap(),
+                Err(_) => writeln!(f, "PANIC").unwrap(),
+            }
+        }
         match r {
             Ok(Ok((cw, size))) => {
                 ok += 1;
